@@ -31,7 +31,7 @@ NSHARDS = {"quick": 8, "thorough": 16}
 REQUIRE = {"scheduler_stops_judged": 3000, "stops_mid_cycle": 300, "stops_nested": 500, "stops_with_3plus_alive": 500,
            "path:limit": 200, "path:recur-raise": 200, "path:enter-raise": 200, "path:extend-enter-raise": 100,
            "path:remove": 200, "path:kbint-sched": 200, "path:extend-then-stop": 200, "path:hook-acts": 150,
-           "path:extend-idle-always": 150}
+           "path:extend-idle-always": 150, "stops_under_ado": 500}
 
 PATHS = ["limit", "recur-raise", "enter-raise", "extend-enter-raise", "remove", "kbint-sched", "extend-then-stop",
          "recur-raise", "limit", "hook-acts", "extend-idle-always"]
@@ -64,10 +64,10 @@ def cases(tier, seed, shard, nshards):
     n = (3600 if tier == "quick" else 100000) // nshards
     for i in range(n):
         path = PATHS[i % len(PATHS)]
-        if path == "extend-then-stop":
-            yield make_extend_then_stop(rng)
-        else:
-            yield faults.make_case(rng, path)
+        case = make_extend_then_stop(rng) if path == "extend-then-stop" else faults.make_case(rng, path)
+        if path != "kbint-sched" and rng.random() < 0.25:
+            case["prog"]["runner"] = "ado"   # forced exits under the asyncio entry point
+        yield case
 
 
 def parents_of(run):
@@ -137,6 +137,8 @@ def judge(run, ctx, case):
         if not members:
             continue
         ctx.count("scheduler_stops_judged")
+        if run.prog.get("runner") == "ado":
+            ctx.count("stops_under_ado")
         nested = S != "doist"
         if nested:
             ctx.count("stops_nested")
